@@ -20,6 +20,11 @@ type distProfileOpts struct {
 	Faulty    bool // F-bank-inj / F-bank-nat (C14); otherwise fault-free and predictive
 	Blocks    [2]int
 	MaxAmtExp int
+	// BlockedDests: base-account destinations that cannot receive funds (module addresses): valid configurations
+	// in which payouts fail naturally every block
+	BlockedDests bool
+	// GenMinter: a generated multi-period emission schedule with a short horizon (blocks jump over several period ends)
+	GenMinter bool
 }
 
 // linearMinterJSON: one linear period over ~span, then no minting; amount sized so that blocks mint visibly.
@@ -45,7 +50,7 @@ func buildDistWorld(r *kernel.Rng, o distProfileOpts) (*kernel.WorldSpec, DistGe
 	for i := 0; i < 2; i++ {
 		cfg.BaseAddrs = append(cfg.BaseAddrs, kernel.ActorBech(fmt.Sprintf("sink-%d", i)))
 	}
-	if o.Faulty && r.P(0.5) {
+	if (o.Faulty || o.BlockedDests) && r.P(0.5) {
 		cfg.BlockedBaseAddrs = []string{kernel.ModuleAddr("transfer").String(), kernel.ModuleAddr("interchainaccounts").String()}
 	}
 	params, err := GenDistParams(r.Fork(2), cfg)
@@ -54,6 +59,13 @@ func buildDistWorld(r *kernel.Rng, o distProfileOpts) (*kernel.WorldSpec, DistGe
 	}
 	spec.Distributor = DistGenesisJSON(params)
 	spec.Minter = MinterGenesisJSON(simpleMinterParams(r.Fork(3), spec.GenesisTime, o.MaxAmtExp), spec.GenesisTime)
+	if o.GenMinter {
+		rm := r.Fork(33)
+		horizon := time.Duration(rm.Range(20, 4000)) * time.Second
+		if mp, err := GenMinterParams(rm, spec.GenesisTime, BondDenom, MinterGenCfg{MaxPeriods: 6, MaxAmountExp: o.MaxAmtExp, MaxStepsHint: 200, Horizon: horizon, AllowNone: true}); err == nil {
+			spec.Minter = MinterGenesisJSON(mp, spec.GenesisTime)
+		}
+	}
 	// genesis balances for module-account sources so that they have something to sweep
 	for _, sd := range params.SubDistributors {
 		for _, s := range sd.Sources {
@@ -82,5 +94,24 @@ func distSource(r *kernel.Rng, spec *kernel.WorldSpec, cfg DistGenCfg, o distPro
 	}
 	g := &genSource{rng: r, nBlocks: r.Range(o.Blocks[0], o.Blocks[1]), Cadence: regularCadence, MaxTxs: 4, PTx: 0.7,
 		TxGens: []TxGen{bankSendGen(senders, recips, true)}}
+	if o.GenMinter {
+		// short schedules: jumps of minutes to hours cross several period ends in one block; total time stays bounded
+		// (the chain evaluates exponential periods step by step)
+		start := spec.GenesisTime
+		g.Cadence = func(run *kernel.Run, rng *kernel.Rng) int64 {
+			if run.Chain.Now.Sub(start) > 6*time.Hour {
+				return int64(5*time.Second) + rng.I64n(int64(2*time.Second))
+			}
+			switch rng.Intn(6) {
+			case 0:
+				return int64(time.Duration(rng.Range(1, 90)) * time.Minute)
+			case 1:
+				return int64(time.Duration(rng.Range(10, 600)) * time.Second)
+			case 2:
+				return 1
+			}
+			return int64(5*time.Second) + rng.I64n(int64(2*time.Second))
+		}
+	}
 	return g
 }
